@@ -280,6 +280,7 @@ class Sim:
         self.status: list = []
         self.recv_after_close_returned = 0
         self.closing_from_callback = False
+        self.close_hung = False
         self.sends_from_status_callback = 0
         self._reply_msg = None
         self.replies_sent = 0
@@ -391,6 +392,11 @@ class Sim:
             await asyncio.sleep(0.3)
         if self.status_cb_mode == "slow_closed" and state.name == "CLOSED":
             await asyncio.sleep(0.3)
+        if self.status_cb_mode == "send_on_connected" and state.name == "CONNECTED":
+            # the application greets the gateway from inside the status callback (a request sent on every CONNECTED)
+            from .checks.c13 import make_send_message
+            self.sends_from_status_callback += 1
+            await self.client.send(make_send_message(self.kind))
         if self.status_cb_mode == "send_on_disconnected" and state.name == "DISCONNECTED":
             # the application reacts to the loss by sending something from inside the status callback (it will fail,
             # quietly; what matters is that the client does not wait for itself)
@@ -445,6 +451,15 @@ class Sim:
             if name == "close":
                 self.close_returned = True
             raise
+
+    async def close_guarded(self, timeout=120.0):
+        """close() at the end of a session, with a virtual-time limit: a close() that never returns (waiting for a lock
+        held by a task that waits for it) is recorded, not allowed to eat the session's step budget."""
+        try:
+            await asyncio.wait_for(self.call("close"), timeout)
+        except asyncio.TimeoutError:
+            self.close_hung = True
+            self.ev("close_hung")
 
     def spawn(self, name, *args):
         return self.loop.create_task(self._guarded(name, *args))
@@ -602,6 +617,8 @@ def run_session(kind, scenario, client_kwargs=None, status_cb="ok", recv_cb="ok"
 
     _, stats = vloop.run(main, max_steps=max_steps)
     sim = box.get("sim")
+    if sim is not None and sim.close_hung and not stats["error"]:
+        stats["error"] = "close-never-returned"
     if sim is not None:
         sim.pending_at_end = box.get("pending_names", [])
     return sim, stats
@@ -726,7 +743,7 @@ def c06_stream_clause(spec, acc):
                 if len(sim.conns) > 1:
                     sim.conns[-1].feed(stream[start + plen:])
                 await asyncio.sleep(0.5)
-                await sim.call("close")
+                await sim.close_guarded()
             sim, stats = run_session(kind, scenario2)
             acc.count("stream_sessions")
             acc.count("stream_sessions_across_a_reconnect")
@@ -754,7 +771,7 @@ def c06_stream_clause(spec, acc):
                     pos = c
                     await asyncio.sleep(0.001)
                 await asyncio.sleep(0.5)
-                await sim.call("close")
+                await sim.close_guarded()
             sim, stats = run_session(kind, scenario)
             acc.count("stream_sessions")
             acc.case(("stream", spec["client"], stream, tuple(cuts)))
